@@ -107,21 +107,48 @@ def scan():
     return {"panic_sites": sorted(set(panic)), "process_state": sorted(set(state)), "visitor_overrides": sorted(set(overrides))}
 
 
+def keyed(inv):
+    """the tie compares these keys, not the source text: a rename or a move inside a file keeps them
+    (file::kind with multiplicity for panic sites and process-wide state; file::trait::method for overrides)"""
+    def count(items, keyf):
+        d = {}
+        for x in items:
+            k = keyf(x)
+            d[k] = d.get(k, 0) + 1
+        return d
+    def pk(x):
+        parts = x.split('::')
+        return parts[0] + '::' + parts[2]
+    def sk(x):
+        parts = x.split('::')
+        return parts[0] + '::' + parts[1]
+    def ok(x):
+        parts = x.split('::')
+        trait = 'VisitMut' if parts[1].startswith('VisitMut') else 'Visit'
+        return parts[0] + '::' + trait + '::' + parts[2]
+    return {"panic_sites": count(inv["panic_sites"], pk), "process_state": count(inv["process_state"], sk),
+            "visitor_overrides": count(inv["visitor_overrides"], ok)}
+
+
 def main():
     inv = scan()
     if '--write' in sys.argv:
         old = json.load(open(EXPECTED)) if os.path.exists(EXPECTED) else {}
         notes = old.get('notes', {})
         json.dump({"panic_sites": inv["panic_sites"], "process_state": inv["process_state"],
-                   "visitor_overrides": inv["visitor_overrides"], "notes": notes}, open(EXPECTED, 'w'), indent=1)
+                   "visitor_overrides": inv["visitor_overrides"], "keys": keyed(inv), "notes": notes}, open(EXPECTED, 'w'), indent=1)
         print('written', {k: len(v) for k, v in inv.items()})
         return 0
     exp = json.load(open(EXPECTED))
     out = {}
+    now = keyed(inv)
+    was = exp.get("keys") or keyed(exp)
     for k in ("panic_sites", "process_state", "visitor_overrides"):
-        new = [x for x in inv[k] if x not in exp[k]]
-        gone = [x for x in exp[k] if x not in inv[k]]
-        out[k] = {"count": len(inv[k]), "new": new, "gone": gone}
+        new = ['%s x%d (was %d): %s' % (key, n, was[k].get(key, 0), [x for x in inv[k] if x not in exp[k]][:6])
+               for key, n in sorted(now[k].items()) if n > was[k].get(key, 0)]
+        gone = ['%s x%d (was %d)' % (key, now[k].get(key, 0), n) for key, n in sorted(was[k].items()) if now[k].get(key, 0) < n]
+        out[k] = {"count": len(inv[k]), "new": new, "gone": gone,
+                  "text_changed": [x for x in inv[k] if x not in exp[k]][:10]}
     print(json.dumps(out))
     return 0
 
